@@ -1,6 +1,7 @@
 (* C15 - DER/CER decoders enforce the canonical restrictions they implement, everywhere.
    Statements only. *)
-From PV Require Import Base.Bytes Model.Types Model.TableTypes Model.Proc Model.Enc Model.Dec Proofs.TableFacts Proofs.Strict.
+From PV Require Import Base.Bytes Model.Types Model.TableTypes Model.Proc Model.Enc Model.Dec Spec.X690 Proofs.TableFacts Proofs.Strict
+     Proofs.StrictGlobal.
 Local Open Scope N_scope.
 
 (* On the tables regenerated from /repo on this run: whichever way the DER decoder picks a value
@@ -42,3 +43,56 @@ Theorem C15_boolean_strict : forall fuel sp ts (o: N) s s' d,
   resume (dec_bool_cer fuel sp ts 1) s = inr (Ok d, s') -> o = 0 \/ o = 255.
 Proof. exact boolean_strict. Qed.
 Print Assumptions C15_boolean_strict.
+
+(* GLOBAL, for every input (any octet string at all, not only rewritten encodings): if the DER decoder
+   accepts b without a guiding type, then what it consumed is one complete TLV tree - as parsed by the
+   independent X.690 parser - in which, at EVERY depth and under ANY tagging, no length is indefinite,
+   no string type (UNIVERSAL 3, 4, 7, 12, 18-28, 30) and no BOOLEAN is constructed, and every BOOLEAN
+   has contents 00 or FF *)
+Theorem C15_der_accepts_only_der_shape : forall b d tl n rest, wf_bytes b = true ->
+  decode DER None b = Ok (d, tl) -> X690.parse b = Some (n, rest) ->
+  rest = tl /\ der_shape n = true.
+Proof. exact der_accepts_parsed_der_shape. Qed.
+Print Assumptions C15_der_accepts_only_der_shape.
+
+(* the same with a guiding type (any type without CHOICE/ANY; IMPLICITly tagged strings and BOOLEANs are
+   recognised through the type): gshape T n is the type-directed shape, definite n says no length
+   anywhere in the tree is indefinite *)
+Theorem C15_der_accepts_only_der_shape_guided : forall T b d tl n rest, wf_bytes b = true -> plain T = true ->
+  decode DER (Some T) b = Ok (d, tl) -> X690.parse b = Some (n, rest) ->
+  rest = tl /\ gshape T n = true /\ definite n = true.
+Proof. exact der_accepts_parsed_gshape. Qed.
+Print Assumptions C15_der_accepts_only_der_shape_guided.
+
+(* no indefinite length anywhere, for every guiding type without ANY (CHOICE, SET, OPTIONAL included) and none *)
+Theorem C15_der_accepts_only_definite : forall sp b d tl, wf_bytes b = true -> guide_ok sp ->
+  decode DER sp b = Ok (d, tl) ->
+  exists used n q, b = used ++ tl /\ D (guide sp) [] used n q /\ definite n = true
+                   /\ X690.parse b = (if q then None else Some (n, tl)).
+Proof. exact der_accepts_definite. Qed.
+Print Assumptions C15_der_accepts_only_definite.
+
+(* CER and DER, at any depth, under any tagging, with or without a guiding type: whenever the dispatch
+   reaches a BOOLEAN element and succeeds, it consumed exactly one octet and that octet is 00 or FF *)
+Theorem C15_boolean_strict_everywhere : forall c rec lf sp ts len sfun s d s',
+  c = CER \/ c = DER -> boolean_element c sp ts ->
+  resume (dispatch c rec lf sp ts len sfun) s = inr (Ok d, s') ->
+  len = Some 1 /\ exists o, took s s' [o] /\ (o = 0 \/ o = 255).
+Proof. exact boolean_strict_everywhere. Qed.
+Print Assumptions C15_boolean_strict_everywhere.
+
+(* CER on the parse tree (indefinite lengths included) for guiding types without strings/CHOICE/ANY *)
+Theorem C15_cer_accepts_only_strict_boolean : forall T b d tl n rest, wf_bytes b = true -> cplain T = true ->
+  decode CER (Some T) b = Ok (d, tl) -> X690.parse b = Some (n, rest) ->
+  rest = tl /\ cok n [T] 1 (node_tag n) = true.
+Proof. exact cer_accepts_parsed_boolean_strict. Qed.
+Print Assumptions C15_cer_accepts_only_strict_boolean.
+
+(* observation recorded by the proof (outside the three restrictions the property names): the CER/DER
+   BOOLEAN decoder does not test the primitive/constructed bit, so 21 01 FF is accepted by DER and CER
+   and refused by BER; the independent parser cannot even parse it (FF is not a TLV) *)
+Example C15_constructed_boolean_observation :
+  decode DER None [33; 1; 255] = Ok (DV TBool (VBool true), [])
+  /\ decode BER None [33; 1; 255] = Err EMalformed
+  /\ X690.parse [33; 1; 255] = None.
+Proof. vm_compute. repeat split. Qed.
